@@ -132,7 +132,8 @@ class C20(Prop):
         lay["inner"] = inner
         ws = os.path.join(w.root, "ws")
         for name in ("p1", "p2"):
-            d = os.path.join(ws, name)
+            # sibling repositories whose directory names are in a string-prefix relation
+            d = os.path.join(ws, {"p1": "app", "p2": "app-docs"}[name])
             os.makedirs(d)
             w.raw_git(d, "init", "-q")
             w.write(d, "f.txt", "L6 %s\n" % name)
@@ -269,10 +270,28 @@ class C20(Prop):
         distinct = set()
         for label, payload, form, cwd_name in deliveries:
             evals += 1
+            expect_sibling = preset == "agent-v1" and label == "path:sibling_repo" and cwd_name in ("workspace", "r0", "subdir")
+            if expect_sibling:
+                # make sure there is something to report in the sibling repository
+                sib = os.path.join(lay["p2"], "f.txt")
+                with open(sib, "a") as f:
+                    f.write("L%d sibling ai line\n" % ex.fresh_id())
             res = self.deliver(ex, preset, payload, form, cwds[cwd_name])
             ex.probe("delivery." + form)
             ctx = {"preset": preset, "label": label, "form": form, "cwd": cwd_name}
             viol = self.judge(ex, res, lay, ctx)
+            if not viol and expect_sibling:
+                ex.probe("sibling.expected")
+                found = False
+                base = os.path.join(lay["p2"], ".git", "ai", "working_logs")
+                if os.path.isdir(base):
+                    for d in os.listdir(base):
+                        cp = os.path.join(base, d, "checkpoints.jsonl")
+                        if os.path.isfile(cp) and '"f.txt"' in open(cp).read():
+                            found = True
+                if not found:
+                    viol = {"monitor": "hook.state", "class": "file_of_sibling_repository_not_recorded_there",
+                            "detail": dict(ctx, err=res.err[-300:])}
             outcome = "recorded" if "changed" in res.err and "Checkpoint completed" in res.err else "ignored"
             ex.probe("outcome." + outcome)
             distinct.add("%s|%s|%s|%s" % (preset, label.split(":")[0] + ":" + (label.split(":")[1] if label.startswith(("flip", "path", "garbage")) and ":" in label else ""), cwd_name, outcome))
